@@ -11,12 +11,15 @@
    depths are those of the Gallina merge sort (Lib/DagMergeSort), compared with
    compiled vcsgraph on every generated history (see C22).
 
+   The model follows the code after the repairs 036aad8 (open-ended ranges end at
+   the branch tip) and a31cbfe (_is_obvious_ancestor).
+
    Not covered by theorems (stated in notes/C25.md): exactness of ranges on the
-   merge-sorted ("with-merges") path is checked by the oracle only; the per-file
-   filters are not modelled. *)
+   merge-sorted ("with-merges") path and the per-file clause are checked by the
+   oracle only; the per-file filters are not modelled. *)
 From Coq Require Import List Arith Bool Permutation.
 From BV Require Import Lib.Dag Theory.DagFacts Lib.DagMergeSort Theory.DagMergeSortFacts
-                       Model.RevSpec Theory.RevSpec Model.Log Theory.LogRbd Theory.Log.
+                       Theory.DagMergeSortRevnos Model.RevSpec Theory.RevSpec Model.Log Theory.LogRbd Theory.Log.
 Import ListNotations.
 
 (* ---- every revision of the ancestry exactly once, with revno and depth ----------------- *)
